@@ -31,6 +31,13 @@ type result struct {
 var poisoned bool
 
 func main() {
+	if len(os.Args) > 1 && os.Args[1] == "conftcp" {
+		if !e1n.TCPAvailable() {
+			fmt.Println(`{"Name":"TCP-UNAVAILABLE"}`)
+			return
+		}
+		e1n.UseTCP = true
+	}
 	in := bufio.NewReaderSize(os.Stdin, 1<<20)
 	out := bufio.NewWriter(os.Stdout)
 	defer out.Flush()
